@@ -4,6 +4,7 @@ import SFV.Proofs.FockTensor
 import SFV.Proofs.Bridge
 import SFV.Proofs.FockLoss
 import SFV.Proofs.GaussRegister
+import SFV.Proofs.BosonicState
 
 /-!
 # C07 — every simulated state is physical and gates conserve what they must
@@ -143,6 +144,44 @@ theorem fock_loss_photon_number {K : Type} [CommRing K] (T : K) (n : Nat) :
 theorem gaussian_register_invariant {K : Type} [CommRing K] (ops : List (ROp K)) (n : Nat) (hok : ∀ op ∈ ops, op.ok) :
     NMInv (ops.foldl applyNMR (vacuum n)) :=
   (applyNMR_program ops (vacuum n) (vacuum_inv n) hok).2
+
+/-! ### bosonic states are Hermitian operators -/
+
+/-- **the cat state the bosonic back end prepares (complex representation) is Hermitian** — its components come in
+complex-conjugate pairs — for every amplitude, phase and parity (also non-integer `p`, where the interference weights are not
+real) -/
+theorem bosonic_cat_hermitian {K : Type} [Field K] (hb2 s ar ai : K) (c : SFV.Gauss.Cx K) :
+    SFV.BosSt.ConjClosed (SFV.BosSt.catComplex hb2 s ar ai c) :=
+  SFV.BosSt.cat_conjClosed hb2 s ar ai c
+
+/-- **Gaussian channels and displacements keep a bosonic state Hermitian and its weights untouched**: every register size,
+every real `(X, Y, d)`, any number of components -/
+theorem bosonic_channel_hermitian {K : Type} [CommRing K] (m : Nat) (X Y : Nat → Nat → K) (d : Nat → K)
+    (st : SFV.BosSt.BState K) (h : SFV.BosSt.ConjClosed st) :
+    SFV.BosSt.ConjClosed (st.map (SFV.BosSt.Comp.affine m X Y d)) ∧
+    (SFV.Gauss.csum (st.map (SFV.BosSt.Comp.affine m X Y d)).N fun k => ((st.map (SFV.BosSt.Comp.affine m X Y d)).comp k).w) =
+      SFV.Gauss.csum st.N fun k => (st.comp k).w :=
+  ⟨SFV.BosSt.channel_conjClosed m X Y d st h, SFV.BosSt.channel_weights m X Y d st⟩
+
+/-- … as does every componentwise operation that commutes with complex conjugation (measurement updates, re-weightings) -/
+theorem bosonic_map_hermitian {K : Type} [CommRing K] (F : SFV.BosSt.Comp K → SFV.BosSt.Comp K)
+    (hF : ∀ c, F c.conj = (F c).conj) (st : SFV.BosSt.BState K) (h : SFV.BosSt.ConjClosed st) :
+    SFV.BosSt.ConjClosed (st.map F) :=
+  SFV.BosSt.map_conjClosed F hF st h
+
+/-- **what Hermiticity buys**: the Wigner function at any point, any quadrature density, any Fock matrix element on the
+diagonal — every quantity `Σ_k w_k g(μ_k, Σ_k)` with a conjugation-compatible kernel `g` — is real -/
+theorem bosonic_hermitian_real {K : Type} [Field K] [CharZero K]
+    (g : (Nat → SFV.Gauss.Cx K) → (Nat → Nat → SFV.Gauss.Cx K) → SFV.Gauss.Cx K)
+    (hg : ∀ mu cov, g (fun i => SFV.Gauss.Cx.conj (mu i)) (fun i j => SFV.Gauss.Cx.conj (cov i j)) = SFV.Gauss.Cx.conj (g mu cov))
+    (st : SFV.BosSt.BState K) (h : SFV.BosSt.ConjClosed st) : (st.linear g).im = 0 :=
+  SFV.BosSt.linear_real g hg st h
+
+/-- with both interference terms weighted by the same complex number (a dropped conjugate, seeded change C07-b2) the pairing
+fails: the weights `c/(2+2c)` of components 2 and 3 are not conjugates (`c = i`: both are `(1+i)/4`) -/
+theorem bosonic_cat_dropped_conjugate_counterexample :
+    SFV.BosSt.cdiv (⟨0, 1⟩ : SFV.Gauss.Cx ℚ) ⟨2, 2⟩ ≠ SFV.Gauss.Cx.conj (SFV.BosSt.cdiv (⟨0, 1⟩ : SFV.Gauss.Cx ℚ) ⟨2, 2⟩) := by
+  decide +kernel
 
 /-! ### non-vacuity: the one-mode vacuum satisfies the uncertainty relation's premises -/
 example : (3 / 5 : Rat) * (3 / 5) + (4 / 5) * (4 / 5) = 1 ∧ (5 / 4 : Rat) * (5 / 4) - (3 / 4) * (3 / 4) = 1 := by
